@@ -19,8 +19,11 @@ import (
 	"context"
 	"encoding/hex"
 	"fmt"
+	"math/big"
 	"math/rand"
 	"os"
+	"strconv"
+	"strings"
 	"time"
 
 	"github.com/spf13/afero"
@@ -204,7 +207,7 @@ func runRunEnd(kv map[string]string) string {
 }
 
 func round6Cases(r *rand.Rand, tier string) []string {
-	var out []string
+	out := r6BoundCases(r, tier)
 	provs := []string{"grpcjson", "genjson", "uripost", "raw", "uri", "jsonline"}
 	faults := []string{"none", "missing", "dir", "perm", "cancel", "read0"}
 	rounds := 2
@@ -236,6 +239,106 @@ func round6Cases(r *rand.Rand, tier string) []string {
 				}
 				out = append(out, fmt.Sprintf("k=runend prov=%s fault=%s hex=%s", pv, f, hex.EncodeToString(data)))
 			}
+		}
+	}
+	return out
+}
+
+// ---------------------------------------------------------------- announced amounts beyond the bounds of the code
+//
+// Until round 5 an input that announces an absurd amount (repeat count of a request, scenario weight, randString length)
+// was not run at all (oom-guard). The code now bounds all three, so such an input must be REFUSED: it is run for real, in
+// a child process under RLIMIT_AS (a tree without the bound dies there with a fatal out-of-memory error, not here).
+
+func r6ChildCase(input string) string {
+	f, err := os.CreateTemp("", "c13-case-*.txt")
+	if err != nil {
+		return "HARNESSERR " + err.Error()
+	}
+	defer os.Remove(f.Name())
+	_, _ = f.WriteString(input)
+	_ = f.Close()
+	return runChild("case", f.Name())
+}
+
+func scnAbsurd(kv map[string]string) bool {
+	reqs, ok := scnReqs(kv)
+	if !ok {
+		return false
+	}
+	for _, r := range reqs {
+		if hasLongDigitRun(r, 7) {
+			return true
+		}
+		// seven digits: beyond MaxScenarioRequests = 1048576?
+		for i := 0; i+7 <= len(r); i++ {
+			if n, err := strconv.Atoi(r[i : i+7]); err == nil && n > 1048576 && !strings.ContainsAny(r[i:i+7], "+- ") {
+				return true
+			}
+		}
+	}
+	return false
+}
+
+// weights whose spread certainly exceeds MaxSpreadSize (or overflows): total of w/gcd above 2^24
+func r6WeightsAbsurd(kv map[string]string) bool {
+	ws, ok := parseWeights(kv["w"])
+	if !ok || !weightsTooBig(ws) || len(ws) > 12 || len(ws) < 2 {
+		return false
+	}
+	g := new(big.Int)
+	var vals []*big.Int
+	for _, w := range ws {
+		n := int64(1)
+		if w != "-" {
+			n, _ = strconv.ParseInt(w, 10, 64)
+		}
+		if n < 0 {
+			return false // refused before anything is computed: run in place
+		}
+		if n == 0 {
+			n = 1
+		}
+		v := big.NewInt(n)
+		vals = append(vals, v)
+		g.GCD(nil, nil, g, v)
+	}
+	total := new(big.Int)
+	for _, v := range vals {
+		total.Add(total, new(big.Int).Quo(v, g))
+	}
+	return total.Cmp(big.NewInt(1<<24)) > 0
+}
+
+func r6RandStringAbsurd(kv map[string]string) bool {
+	s, _ := unhex(kv, "n")
+	n, err := strconv.ParseInt(strings.TrimSpace(s), 10, 64)
+	return err == nil && n > 1<<24 && kv["args"] != "0"
+}
+
+func r6BoundCases(r *rand.Rand, tier string) []string {
+	var out []string
+	n := 1
+	if tier == "thorough" {
+		n = 8
+	}
+	counts := []string{"1048577", "99999999", "99999999999", "9223372036854775807", "18446744073709551617", "10485760"}
+	for i := 0; i < n; i++ {
+		for _, c := range counts {
+			kind := []string{"http", "grpc"}[r.Intn(2)]
+			format := []string{"yaml", "hcl"}[r.Intn(2)]
+			reqs := [][]string{{"r1(" + c + ")"}, {"r1(2, 5)", "r1(" + c + ")"}, {"r1", "sleep(10)", "r1(" + c + ", 3)", "r1"}, {"nosuch(" + c + ")"}, {"r1(1, " + c + ")"}}[r.Intn(5)]
+			var hs []string
+			for _, q := range reqs {
+				hs = append(hs, hx(q))
+			}
+			out = append(out, fmt.Sprintf("k=scn kind=%s fmt=%s defs=r1 reqs=%s", kind, format, strings.Join(hs, ";")))
+		}
+		for _, w := range []string{"16777217,1", "4611686018427387904,3", "9223372036854775807,9223372036854775807,2", "16777216,1", "1099511627776,1099511627776", "33554432,1,1", "-,99999999999", "50000000,3,7"} {
+			out = append(out, fmt.Sprintf("k=scnw kind=%s fmt=%s w=%s", []string{"http", "grpc"}[r.Intn(2)], []string{"yaml", "hcl"}[r.Intn(2)], w))
+		}
+		for _, l := range []string{"16777217", "99999999999", "9223372036854775807", "4294967297"} {
+			out = append(out, fmt.Sprintf("k=rs via=%s args=%d n=%s letters=%s", []string{"func", "vs"}[r.Intn(2)], 1+r.Intn(2), hx(l), hx("ab")))
 		}
 	}
 	return out
